@@ -35,7 +35,7 @@ META = dict(
          "(an exception is a disagreement). Scale: 162..512-point and 1500-point series for every time carrier after an earlier call, with the same carrier, on another axis of the same shape (every odd timestamp moved); a frequency-carrying DatetimeIndex and a monthly axis. non-trivial = non-canonical carrier",
     bounds={"quick": {"max_len": 3}, "thorough": {"max_len": 5}},
     not_judged=["epoch seconds inside a pandas Series (statement lists Series under datetimes)",
-                "time-valued data for valid_range_test (the statement's time carriers are about the time input)",
+                "time-valued data for valid_range_test beyond datetime64 units, lists/tuples of datetime64 / Timestamp / datetime, DatetimeIndex and naive Series",
                 "integer carriers when the series has a missing value",
                 "valid_range_test with limits that are not exact in the data's own dtype (its docstring: the span is taken in the format of the data, 'without type conversion')"],
     assumptions=["logical values 1 and 3 are exact in every real dtype used"],
@@ -257,7 +257,68 @@ def call_with(name, cfg, logical, carriers, span_tuple=False):
     return vals
 
 
+VRT_CARRIERS = ("dt64us", "dt64ms", "dt64s", "list_dt64", "tuple_dt64", "dtindex", "series_naive", "list_timestamp", "list_datetime")
+
+
+def vrt_data(x, c):
+    """time-valued data for valid_range_test: offsets in seconds from T0 / MISS -> carrier c (None: cannot hold it)"""
+    import pandas as pd
+
+    base = np.array([np.datetime64("NaT") if v == MISS else np.datetime64(int(alpha.T0 + v), "s") for v in x], dtype="datetime64[s]")
+    if c == "dt64ns":
+        return base.astype("datetime64[ns]")
+    if c in ("dt64us", "dt64ms", "dt64s"):
+        return base.astype(f"datetime64[{c[4:]}]")
+    if c == "list_dt64":
+        return list(base)
+    if c == "tuple_dt64":
+        return tuple(base)
+    if c == "dtindex":
+        return pd.DatetimeIndex(base.astype("datetime64[ns]"))
+    if c == "series_naive":
+        return pd.Series(base.astype("datetime64[ns]"))
+    if c == "list_timestamp":
+        return [pd.NaT if v == MISS else pd.Timestamp(int(alpha.T0 + v), unit="s") for v in x]
+    if c == "list_datetime":
+        if any(v == MISS for v in x):
+            return None
+        return [dt.datetime(1970, 1, 1) + dt.timedelta(seconds=int(alpha.T0 + v)) for v in x]
+    raise KeyError(c)
+
+
+def check_vrt(case):
+    """valid_range_test on time-valued data: the instants in another carrier / unit, same span (nanosecond datetime64)"""
+    from ioos_qc import axds
+
+    x, cfg = case["x"], case["cfg"]
+    mk = lambda v: None if v is None else np.datetime64(int(alpha.T0 + v), "s").astype("datetime64[ns]")
+    span = (mk(cfg["lo"]), mk(cfg["hi"]))
+    kw = {k: v for k, v in cfg.items() if k not in ("lo", "hi")}
+
+    def run(c):
+        d = vrt_data(x, c)
+        if d is None:
+            return None
+        out = alpha.call(axds.valid_range_test, d, span, **kw)
+        return out if isinstance(out, alpha.Raised) else alpha.flags_of(out)[0]
+    canon = run("dt64ns")
+    res = run(case["carrier"])
+    if res is None:
+        return [], False, None, 1, 1
+    vs = []
+    axes = f"inp={case['carrier']}"
+    if isinstance(canon, alpha.Raised):
+        vs.append(V(f"{PROP}|valid_range_test[time-valued]|canonical|symptom={canon!r}", f"valid_range_test raised {canon.name} on datetime64[ns] data", None, repr(canon)))
+    elif isinstance(res, alpha.Raised):
+        vs.append(V(f"{PROP}|valid_range_test[time-valued]|{axes}|symptom={res!r}", f"valid_range_test with {axes} raised {res.name}: {res.msg}", canon, repr(res)))
+    elif res != canon:
+        vs.append(V(f"{PROP}|valid_range_test[time-valued]|{axes}|symptom=flags-differ", f"valid_range_test on time-valued data with {axes} returns different flags than with datetime64[ns]", canon, res))
+    return vs, True, tuple(res) if isinstance(res, list) else repr(res), 0, 2
+
+
 def check_case(case):
+    if case.get("fn") == "valid_range_time":
+        return check_vrt(case)
     name, cfg, x = case["fn"], case["cfg"], case["x"]
     logical = logical_inputs(name, x, cfg.get("_step"), cfg.get("_gaps"), cfg.get("_months", False))
     canon = call_with(name, cfg, logical, {})
@@ -297,11 +358,20 @@ def tasks(tier):
     for name, cfgs in TESTS.items():
         for ci in range(len(cfgs)):
             ts.append((name, ci, NMAX[tier]))
+    ts.append(("valid_range_time", 0, NMAX[tier]))
     return ts
 
 
 def run_task(task, acc):
     name, ci, n = task
+    if name == "valid_range_time":
+        def gen_v():
+            for cfg in (dict(lo=60, hi=180), dict(lo=None, hi=120, end_inclusive=True), dict(lo=60, hi=None, start_inclusive=False)):
+                for x in alpha.all_seqs((0, 60, 120, 180, 240, MISS), 1, n):
+                    for c in VRT_CARRIERS:
+                        yield dict(fn=name, cfg=cfg, x=list(x), carrier=c)
+        run_cases(acc, gen_v(), check_case)
+        return
     cfg = TESTS[name][ci]
     spec = G.SPECS[name]
     alphabet = (1.0, 3.0, MISS) if name != "pressure_increasing_test" else (1.0, 3.0, 2.0)
